@@ -1,13 +1,76 @@
 (* Runner for the num model: decodes wire arguments, calls Num/Amount.v, encodes the result.
-   Same operation names as harness/c05.go. *)
+   Same operation names as harness/c05.go.  The same names with the prefix impl_ call the
+   implementation-faithful model Num/AmountImpl.v (int64 wrap + binary64); its Undefined (Go's
+   implementation-defined int64 conversion) is printed as ( err undefined ).  The prefix dom_
+   evaluates the boolean guard in_domain_<op> of the exactness theorem for that operation. *)
 From Coq Require Import ZArith List String Bool.
-From Verif Require Import Base.Wire Base.Rha Num.Amount.
+From Verif Require Import Base.Wire Base.Rha Base.Int64 Num.Amount Num.AmountImpl.
 Import ListNotations.
 Open Scope Z_scope.
 
 Definition amt (v : V) : amount :=
   match v with VL [VI x; VI e] => mkA x (Z.to_nat e) | _ => mkA 0 0 end.
 Definition vamt (a : amount) : V := VL [VI (val a); VN (exp a)].
+
+Definition vres (r : impl_result) : list V :=
+  match r with Defined a => [vamt a] | Undefined => [verr "undefined"] end.
+
+Definition run_num_impl (op : string) (a1 a2 a3 : V) : list V :=
+  let x := amt a1 in
+  if String.eqb op "impl_add" then vres (impl_add x (amt a2))
+  else if String.eqb op "impl_sub" then vres (impl_sub x (amt a2))
+  else if String.eqb op "impl_mul" then vres (impl_mul x (amt a2))
+  else if String.eqb op "impl_div" then vres (impl_div x (amt a2))
+  else if String.eqb op "impl_rescale" then vres (impl_rescale x (vnat a2))
+  else if String.eqb op "impl_rescale_up" then vres (impl_rescale_up x (vnat a2))
+  else if String.eqb op "impl_rescale_down" then vres (impl_rescale_down x (vnat a2))
+  else if String.eqb op "impl_rescale_range" then vres (impl_rescale_range x (vnat a2) (vnat a3))
+  else if String.eqb op "impl_match_precision" then vres (impl_match_precision x (amt a2))
+  else if String.eqb op "impl_upscale" then vres (impl_upscale x (vnat a2))
+  else if String.eqb op "impl_downscale" then vres (impl_downscale x (vnat a2))
+  else if String.eqb op "impl_compare" then
+    match impl_compare x (amt a2) with Some c => [VI c] | None => [verr "undefined"] end
+  else if String.eqb op "impl_equals" then
+    match impl_equals x (amt a2) with Some c => [VB c] | None => [verr "undefined"] end
+  else if String.eqb op "impl_split" then
+    match impl_split x (vz a2) with Some s => [vamt (fst s); vamt (snd s)] | None => [verr "undefined"] end
+  else if String.eqb op "impl_negate" then vres (impl_negate x)
+  else if String.eqb op "impl_abs" then vres (impl_abs x)
+  else if String.eqb op "impl_remove" then vres (impl_remove x (amt a2))
+  else if String.eqb op "impl_pct_of" then vres (impl_pct_of (amt a2) x)
+  else if String.eqb op "impl_pct_from" then vres (impl_pct_from (amt a2) x)
+  else if String.eqb op "impl_factor" then vres (impl_factor x)
+  else if String.eqb op "impl_pct_from_amount" then vres (impl_pct_from_amount x)
+  else if String.eqb op "impl_pct_amount" then vres (impl_pct_amount x)
+  else [verr "unknown-num-op"].
+
+Definition run_num_dom (op : string) (a1 a2 a3 : V) : list V :=
+  let x := amt a1 in
+  if String.eqb op "dom_add" then [VB (in_domain_add x (amt a2))]
+  else if String.eqb op "dom_sub" then [VB (in_domain_sub x (amt a2))]
+  else if String.eqb op "dom_mul" then [VB (in_domain_mul x (amt a2))]
+  else if String.eqb op "dom_div" then [VB (in_domain_div x (amt a2))]
+  else if String.eqb op "dom_rescale" then [VB (in_domain_rescale x (vnat a2))]
+  else if String.eqb op "dom_rescale_up" then [VB (in_domain_rescale x (Nat.max (vnat a2) (exp x)))]
+  else if String.eqb op "dom_rescale_down" then [VB (in_domain_rescale x (Nat.min (vnat a2) (exp x)))]
+  else if String.eqb op "dom_rescale_range" then
+    [VB (in_domain_rescale x (Nat.max (vnat a2) (exp x)) &&
+         in_domain_rescale (rescale_up x (vnat a2)) (Nat.min (vnat a3) (exp (rescale_up x (vnat a2)))))]
+  else if String.eqb op "dom_match_precision" then [VB (in_domain_rescale x (Nat.max (exp (amt a2)) (exp x)))]
+  else if String.eqb op "dom_upscale" then [VB (in_domain_rescale x (exp x + vnat a2))]
+  else if String.eqb op "dom_downscale" then [VB (in_domain_rescale x (exp x - vnat a2))]
+  else if String.eqb op "dom_compare" then [VB (in_domain_compare x (amt a2))]
+  else if String.eqb op "dom_equals" then [VB (in_domain_compare x (amt a2))]
+  else if String.eqb op "dom_split" then [VB (in_domain_split x (vz a2))]
+  else if String.eqb op "dom_negate" then [VB (in_domain_negate x)]
+  else if String.eqb op "dom_abs" then [VB (in_domain_negate x)]
+  else if String.eqb op "dom_remove" then [VB (in_domain_remove x (amt a2))]
+  else if String.eqb op "dom_pct_of" then [VB (in_domain_pct_of (amt a2) x)]
+  else if String.eqb op "dom_pct_from" then [VB (in_domain_pct_from (amt a2) x)]
+  else if String.eqb op "dom_factor" then [VB (in_domain_factor x)]
+  else if String.eqb op "dom_pct_from_amount" then [VB (in_domain_pct_from_amount x)]
+  else if String.eqb op "dom_pct_amount" then [VB (in_domain_pct_amount x)]
+  else [verr "unknown-num-op"].
 
 Definition run_num (args : list V) : list V :=
   match args with
@@ -44,6 +107,7 @@ Definition run_num (args : list V) : list V :=
     else if String.eqb op "pct_negate" then [vamt (negate x)]
     else if String.eqb op "pct_rescale" then [vamt (rescale x (vnat a2))]
     else if String.eqb op "threshold" then [VB (threshold (vz a1) (amt a2) (amt a3))]
-    else [verr "unknown-num-op"]
+    else if String.prefix "impl_" op then run_num_impl op a1 a2 a3
+    else run_num_dom op a1 a2 a3
   | [] => [verr "unknown-num-op"]
   end.
